@@ -1262,6 +1262,10 @@ class Evaluator:
             h = self.ex.contract.handlers.get(f"attr:{n.attr}")
             if h:
                 return h(self.ex, self.st, o, n)
+            if o.oid == "self" and self.ex._is_property(n.attr):
+                r = self.ex._inline_helper(o, n.attr, self.st, [], {}, n, self)     # a straight-line @property of the same class
+                if r is not NotImplemented:
+                    return r
             return Method(o, n.attr)
         if isinstance(o, Arr):
             if ("arr." + n.attr) in self.ex.contract.handlers:
@@ -2043,6 +2047,9 @@ def Executor_call_method(self, m, st, args, kwargs, node, ev):
         key = f"{o.cls}.{m.name}"
         h = self.contract.handlers.get(key) or self.contract.handlers.get("self." + m.name)
         if h is None:
+            r = self._inline_helper(o, m.name, st, args, kwargs, node, ev)
+            if r is not NotImplemented:
+                return r
             raise Outside(f"call of method {key} has no contract")
         cnt = self.call_counts.get(key, 0)
         return h(self, st, o, args, kwargs, node, ev)
@@ -2081,6 +2088,108 @@ def Executor_call_method(self, m, st, args, kwargs, node, ev):
     raise Outside(f"method {m.name} of {type(o).__name__}")
 
 
+def Executor_inline_helper(self, o, name, st, args, kwargs, node, ev):
+    """A private helper method of the SAME class as the function under contract, called on `self`, that has no contract of its own and
+    is straight-line for the current path (assignments to locals, returns, `if`s whose tests the path condition decides): executed in
+    place with the caller's state. Anything else (loops, stores, undecided tests, recursion) -> NotImplemented (the caller reports the
+    call as outside the subset). This keeps proofs alive across "extract a small helper" refactorings and lets a defect hidden in such a
+    helper fail the caller's obligations."""
+    from pyvc import extract as _extract
+    if not (isinstance(o, Obj) and o.oid == "self") or getattr(self, "_inlining", 0) >= 2:
+        return NotImplemented
+    cls = getattr(self.fx, "cls", None)
+    cls = getattr(cls, "name", cls)
+    mod = getattr(self.fx, "mod", None)
+    if not cls or not mod:
+        return NotImplemented
+    try:
+        hx = _extract.get_function(mod, f"{cls}.{name}")
+    except Exception:
+        return NotImplemented
+    fn = hx.node
+    params = [a.arg for a in fn.args.args]
+    if not params or fn.args.vararg or fn.args.kwarg or fn.args.kwonlyargs:
+        return NotImplemented
+    defaults = fn.args.defaults
+    bound = {params[0]: o}
+    rest = params[1:]
+    if len(args) > len(rest) or any(k not in rest for k in kwargs):
+        return NotImplemented
+    for p_, a in zip(rest, args):
+        bound[p_] = a
+    for k_, v_ in kwargs.items():
+        if k_ in bound:
+            return NotImplemented
+        bound[k_] = v_
+    nd = len(defaults)
+    for i, p_ in enumerate(rest):
+        if p_ not in bound:
+            j = i - (len(rest) - nd)
+            if j < 0:
+                return NotImplemented
+            if not isinstance(defaults[j], ast.Constant):
+                return NotImplemented
+            bound[p_] = defaults[j].value
+    saved_env = st.env
+    st.env = dict(bound)
+    self._inlining = getattr(self, "_inlining", 0) + 1
+    try:
+        def run(stmts):
+            for s_ in stmts:
+                if isinstance(s_, ast.Expr) and isinstance(s_.value, ast.Constant):
+                    continue                                   # docstring
+                if isinstance(s_, ast.Pass):
+                    continue
+                if isinstance(s_, ast.Return):
+                    return ("ret", Evaluator(self, st).eval(s_.value) if s_.value is not None else None)
+                if isinstance(s_, ast.Assign) and len(s_.targets) == 1 and isinstance(s_.targets[0], ast.Name):
+                    st.env[s_.targets[0].id] = Evaluator(self, st).eval(s_.value)
+                    continue
+                if isinstance(s_, ast.AugAssign) and isinstance(s_.target, ast.Name):
+                    e2 = Evaluator(self, st)
+                    st.env[s_.target.id] = e2.binop(s_.op, e2.eval(_load(s_.target)), e2.eval(s_.value), s_)
+                    continue
+                if isinstance(s_, ast.If):
+                    c = Evaluator(self, st).eval(s_.test)
+                    c = c if isinstance(c, bool) else self.decide(st, Zb(c))
+                    if c is None:
+                        raise Outside("helper branches on a condition the path does not decide")
+                    r = run(s_.body if c else s_.orelse)
+                    if r is not None:
+                        return r
+                    continue
+                raise Outside(f"helper statement {type(s_).__name__}")
+            return None
+        try:
+            r = run(fn.body)
+        except Outside:
+            return NotImplemented
+        return r[1] if r is not None else None
+    finally:
+        self._inlining -= 1
+        st.env = saved_env
+
+
+def Executor_is_property(self, name):
+    from pyvc import extract as _extract
+    cls, mod = getattr(self.fx, "cls", None), getattr(self.fx, "mod", None)
+    cls = getattr(cls, "name", cls)
+    if not cls or not mod:
+        return False
+    try:
+        tree = _extract.module_ast(mod)[1]
+    except Exception:
+        return False
+    for c in ast.walk(tree):
+        if isinstance(c, ast.ClassDef) and c.name == cls:
+            for f in c.body:
+                if isinstance(f, ast.FunctionDef) and f.name == name:
+                    return any(isinstance(d, ast.Name) and d.id == "property" for d in f.decorator_list)
+    return False
+
+
+Executor._is_property = Executor_is_property
+Executor._inline_helper = Executor_inline_helper
 Executor.call_builtin = Executor_call_builtin
 Executor.call_method = Executor_call_method
 
